@@ -159,6 +159,24 @@ Section Model.
              (norms : nat -> cpstate -> list F * list F) (modes : list nat) (st : cpstate) : cpstate :=
     cp_normalize_m (shape X) rank norms (fst st, cp_sweep solve X (fst st) lam rank modes (snd st)).
 
+  (* ---------------- CP regressor (regression/cp_regression.py:fit), scalar responses ----------------
+     prediction of one sample = <X_s, [[w; W_1..W_p]]>; the row of the block's design matrix `phi` that belongs to sample s
+     is the flattened MTTKRP of X_s (entries (i, r) in row-major order) *)
+  Definition cp_inner (X : tensor F) (w : list F) (facs : list mat) (rank : nat) : F :=
+    gsum (prod (shape X)) (fun o => nth o (data X) (f0 Op) *f cp_rec w facs rank (unravel (shape X) o)).
+  Definition cpreg_phi_row (X : tensor F) (w : list F) (facs : list mat) (k rank : nat) : list F :=
+    flat_map (fun i => map (fun r => cp_mttkrp X w facs k i r) (seq 0 rank)) (seq 0 (nth k (shape X) 0)).
+  Definition cpreg_phi (Xs : list (tensor F)) (w : list F) (facs : list mat) (k rank : nat) : mat :=
+    map (fun X => cpreg_phi_row X w facs k rank) Xs.
+  (* the part of the regressor's objective that depends on factor k (dk rows):  ||y - predictions||^2 + reg ||W_k||_F^2 *)
+  Definition cpreg_obj (Xs : list (tensor F)) (ys : list F) (w : list F) (facs : list mat) (k dk rank : nat) (reg : F) : F :=
+    gsum (length Xs) (fun s => fsq (vget ys s -f cp_inner (nth s Xs (mk [] [])) w facs rank))
+    +f reg *f gsum dk (fun i => gsum rank (fun r => fsq (mget (nth k facs []) i r))).
+  (* left-hand side of the normal equations of the block at (i, r) *)
+  Definition cpreg_normal_lhs (Xs : list (tensor F)) (ys : list F) (w : list F) (facs : list mat) (k rank : nat) (A : mat) (i r : nat) : F :=
+    gsum (length Xs) (fun s => cp_mttkrp (nth s Xs (mk [] [])) w facs k i r
+                               *f (vget ys s -f cp_inner (nth s Xs (mk [] [])) w (set_nth k A facs) rank)).
+
   (* ---------------- generic (ridge) least-squares block with several right-hand sides ----------------
      used for the blocks of tensor_ring_als (design matrix = reshaped sub-chain), the ridge ALS of the
      CP / Tucker regressors and the coupled matrix-tensor ALS: the design matrix is captured from the
